@@ -313,13 +313,11 @@ class Profile:
             raise AldyException(f"Profile {profile} not compatible with {gene.genome}")
         if cn_region is None:
             cn_region = GRange(*prof["neutral"][gene.genome])
-        return Profile(
-            profile,
-            cn_region,
-            prof,
-            neutral_value=prof["neutral"].get("value"),
-            **dict(prof.get("options", {}), **params),
-        )
+        # `neutral_value` is a model parameter too: the options section of a profile
+        # (or the caller) may carry it
+        options = dict(prof.get("options", {}), **params)
+        options.setdefault("neutral_value", prof["neutral"].get("value"))
+        return Profile(profile, cn_region, prof, **options)
 
     @staticmethod
     def get_sam_profile_data(
